@@ -19,7 +19,7 @@ func parseDateTime(value ldvalue.Value) (time.Time, bool) {
 }
 
 func unixMillisToUtcTime(unixMillis float64) time.Time {
-	return time.Unix(0, int64(unixMillis)*int64(time.Millisecond)).UTC()
+	return time.UnixMilli(int64(unixMillis)).UTC()
 }
 
 func parseRegexp(value ldvalue.Value) *regexp.Regexp {
